@@ -311,7 +311,9 @@ func c06OneNodeManyQueries(c *hx.Ctx, unis []*Universe, p protocol.Protocol, pc 
 		if len(unpub) > 0 {
 			popts = append(popts, processor.WithUnpublishedOperationStore(&unpubStore{ops: ToAnchored(u.Suffix, unpub)}))
 		}
-		proc := processor.New("verif", store, pc, popts...)
+		// logical step budget over the whole series (a library that loops is a violation, not a hang of the check)
+		bc := &budgetClient{inner: pc}
+		proc := processor.New("verif", store, bc, popts...)
 		type query struct {
 			name string
 			opts []document.ResolutionOption
@@ -325,6 +327,17 @@ func c06OneNodeManyQueries(c *hx.Ctx, unis []*Universe, p protocol.Protocol, pc 
 		}
 		qs = append(qs, query{"latest", nil})
 		c.Eval()
+		bc.budget = int64(2*len(qs)+4) * int64(4*(len(pub)+len(unpub))+16)
+		defer func() {
+			if x := recover(); x != nil {
+				if _, isBudget := x.(resolveBudget); isBudget {
+					c.Violation(fmt.Sprintf("C06 a series of version queries on one node did not terminate within its step budget: published [%s] pending [%s]", histString(pub), histString(unpub)),
+						map[string]interface{}{"published": replayOps(pub), "pending": replayOps(unpub)})
+					return
+				}
+				panic(x)
+			}
+		}()
 		var first []string
 		for pass := 0; pass < 2; pass++ {
 			for qi, q := range qs {
